@@ -3,6 +3,7 @@
 import importlib, itertools
 from mc import core, grid, nvar
 from mc.props import c06
+from mc.ref import vocab
 
 PROP = "C03"
 VECTORS = [{"quoted": q, "platform_aware": p, "strip_suffix": s} for q in (False, True) for p in (False, True) for s in (False, True)]
@@ -164,7 +165,34 @@ def judge_pair(w):
     return out
 
 
+def sweep_cases():
+    return [{"sweep": [ord(c), pos]} for c in vocab.space_like_chars() for pos in vocab.SWEEP_POSITIONS]
+
+
+def evaluate_sweep(w):
+    url = vocab.sweep_url(chr(w["sweep"][0]), w["sweep"][1])
+    out = []
+    calls = Calls()
+    for vi in range(len(VECTORS)):
+        f, _ = judge_url(url, vi, calls)
+        for (c, e, g) in f:
+            out.append((c, dict(e, opts=VECTORS[vi]), g))
+        if out:
+            break
+    return out
+
+
+def _sweep_task(ws):
+    out = []
+    for w in ws:
+        for (c, e, g) in evaluate_sweep(w):
+            out.append((c, w, e, g))
+    return len(ws), out
+
+
 def judge(w):
+    if "sweep" in w:
+        return evaluate_sweep(w)
     if "u" in w:
         return judge_pair(w)
     g = the_grid("thorough")
@@ -240,4 +268,16 @@ def run(chk):
     chk.clause(PROP + ".n-implies-f", checked=members * 8, nontrivial=members * 8 - nclasses_n)
     chk.add("transitions", n1 * 22 + (members - n1) * 10)
     chk.add("evaluations", n1 * 8 + members * 8)
+    sw = sweep_cases()
+    nsw, swf = 0, []
+    for k, f in core.pmap(_sweep_task, [sw[i:i + 100] for i in range(0, len(sw), 100)], chk.seed):
+        nsw += k
+        swf.extend(f)
+    chk.cov["parts"]["whitespace-sweep"] = {"cases": nsw, "failing": len(swf)}
+    chk.add("states", nsw)
+    chk.add("traces_validated_against_impl", nsw)
+    chk.rule.append("Sweep: every Unicode white-space / separator / control character escaped at 6 positions x 8 vectors for the compositions.")
+    for (c, w, e, gg) in sorted(swf, key=lambda f: (f[0], core.canon_json(f[1]))):
+        chk.clause(c, failed=1)
+        chk.witness(c, w, e, gg)
     chk.cov["bounds"] = {"d": d, "bases": g.free_count}
